@@ -3,7 +3,9 @@ package c09
 import (
 	"context"
 	"fmt"
+	"io"
 	"math"
+	rtrace "runtime/trace"
 	"sync"
 	"testing"
 	"time"
@@ -64,6 +66,9 @@ type PipeCase struct {
 	// judged the same way for every stock processor.
 	Batch int    `json:"batch,omitempty"`
 	Steps []Step `json:"steps"`
+	// ExecTrace: the Go execution tracer (runtime/trace) runs while the
+	// program does; the SDK then attaches a runtime/trace task to every span.
+	ExecTrace bool `json:"exec_trace,omitempty"`
 }
 
 // ---------------------------------------------------------------------
@@ -145,6 +150,7 @@ func genPipe(t *rapid.T) PipeCase {
 	c.SIDSeed = rapid.Uint64().Draw(t, "sid_seed")
 	c.Syncer = rapid.Bool().Draw(t, "syncer")
 	c.Batch = rapid.SampledFrom([]int{0, 0, 1, 2}).Draw(t, "batch")
+	c.ExecTrace = rapid.IntRange(0, 4).Draw(t, "exec_trace") == 0
 
 	pool := []string{genTIDHex(t, false, "pool0"), genTIDHex(t, false, "pool1"), genTIDHex(t, false, "pool2")}
 	n := rapid.IntRange(1, 40).Draw(t, "nsteps")
@@ -490,6 +496,12 @@ func runPipe(c PipeCase) ([]vk.Violation, vk.Info) {
 		seenKind[kind]++
 	}
 
+	if c.ExecTrace {
+		if err := rtrace.Start(io.Discard); err == nil {
+			defer rtrace.Stop()
+		}
+	}
+	info.ClassIf(c.ExecTrace, "go_execution_tracer_running")
 	r := &pipeRun{}
 	exp := &memExporter{}
 	opts := []sdktrace.TracerProviderOption{sdktrace.WithResource(resource.Empty())}
